@@ -22,6 +22,8 @@ func foldFn(fn *ssa.Function, args []constant.Value) (constant.Value, bool) {
 		return nil, false
 	}
 	env := map[ssa.Value]constant.Value{}
+	tupleVals := map[ssa.Value][2]constant.Value{}
+	addrVals := map[ssa.Value]constant.Value{}
 	for i, p := range fn.Params {
 		env[p] = args[i]
 	}
@@ -79,6 +81,17 @@ func foldFn(fn *ssa.Function, args []constant.Value) (constant.Value, bool) {
 					return nil, false
 				}
 			case *ssa.UnOp:
+				if x.Op == token.MUL {
+					if v, ok := addrVals[x.X]; ok {
+						env[x] = v
+						continue
+					}
+					// the table itself (map / slice / array global): looked up by the consumer
+					if _, isG := x.X.(*ssa.Global); isG {
+						continue
+					}
+					return nil, false
+				}
 				a, ok := get(x.X)
 				if !ok {
 					return nil, false
@@ -120,7 +133,102 @@ func foldFn(fn *ssa.Function, args []constant.Value) (constant.Value, bool) {
 					return nil, false
 				}
 				return get(x.Results[0])
+			case *ssa.Lookup:
+				// string constant index, or a package-level map table (built by a literal in the package initialiser)
+				k, ok := get(x.Index)
+				if !ok {
+					return nil, false
+				}
+				if base, ok := get(x.X); ok && base.Kind() == constant.String {
+					str := constant.StringVal(base)
+					i, ok := constant.Int64Val(k)
+					if !ok || i < 0 || int(i) >= len(str) {
+						return nil, false
+					}
+					env[x] = constant.MakeInt64(int64(str[i]))
+					continue
+				}
+				tbl := globalMapTable(x.X)
+				if tbl == nil {
+					return nil, false
+				}
+				v, hit := tbl[k.ExactString()]
+				if x.CommaOk {
+					tupleVals[x] = [2]constant.Value{v, constant.MakeBool(hit)}
+					if !hit {
+						tupleVals[x] = [2]constant.Value{zeroOf(x.Type().(*types.Tuple).At(0).Type()), constant.MakeBool(false)}
+					}
+					continue
+				}
+				if !hit {
+					v = zeroOf(x.Type())
+				}
+				if v == nil {
+					return nil, false
+				}
+				env[x] = v
+			case *ssa.Extract:
+				tv, ok := tupleVals[x.Tuple]
+				if !ok || tv[x.Index] == nil {
+					return nil, false
+				}
+				env[x] = tv[x.Index]
+			case *ssa.Index:
+				k, ok := get(x.Index)
+				if !ok {
+					return nil, false
+				}
+				i, ok := constant.Int64Val(k)
+				if !ok {
+					return nil, false
+				}
+				if base, ok := get(x.X); ok && base.Kind() == constant.String {
+					str := constant.StringVal(base)
+					if i < 0 || int(i) >= len(str) {
+						return nil, false
+					}
+					env[x] = constant.MakeInt64(int64(str[i]))
+					continue
+				}
+				return nil, false
+			case *ssa.IndexAddr:
+				// element of a package-level array / slice table: resolved at the load
+				k, ok := get(x.Index)
+				if !ok {
+					return nil, false
+				}
+				i, ok := constant.Int64Val(k)
+				if !ok {
+					return nil, false
+				}
+				el := globalSeqTable(x.X)
+				if el == nil {
+					return nil, false
+				}
+				if i < 0 || int(i) >= len(el) {
+					return nil, false
+				}
+				if el[i] == nil {
+					return nil, false
+				}
+				addrVals[x] = el[i]
 			case *ssa.Call:
+				// pure standard-library predicates on constants
+				if v, ok := foldStdCall(x, get); ok {
+					env[x] = v
+					continue
+				}
+				if b, isB := x.Call.Value.(*ssa.Builtin); isB && b.Name() == "len" {
+					if a, ok := get(x.Call.Args[0]); ok && a.Kind() == constant.String {
+						env[x] = constant.MakeInt64(int64(len(constant.StringVal(a))))
+						continue
+					}
+					if el := globalSeqTable(x.Call.Args[0]); el != nil {
+						env[x] = constant.MakeInt64(int64(len(el)))
+						continue
+					}
+					return nil, false
+				}
 				// calls to other foldable functions of the same package (predicates built from predicates)
 				cal := x.Call.StaticCallee()
 				if cal == nil || cal.Pkg != fn.Pkg {
@@ -915,4 +1023,256 @@ func tokSetNames(tc *tokConsts, m map[int64]bool) string {
 	}
 	sort.Strings(s)
 	return strings.Join(s, " ")
+}
+
+
+// ---- tables behind package-level variables (read from the package initialiser) ----------------------------------------
+
+func zeroOf(t types.Type) constant.Value {
+	switch b := t.Underlying().(type) {
+	case *types.Basic:
+		switch {
+		case b.Info()&types.IsBoolean != 0:
+			return constant.MakeBool(false)
+		case b.Info()&types.IsString != 0:
+			return constant.MakeString("")
+		case b.Info()&types.IsNumeric != 0:
+			return constant.MakeInt64(0)
+		}
+	}
+	return nil
+}
+
+// globalOf: v is a load of a package-level variable (or the variable's address itself).
+func globalOf(v ssa.Value) *ssa.Global {
+	switch x := v.(type) {
+	case *ssa.Global:
+		return x
+	case *ssa.UnOp:
+		if x.Op == token.MUL {
+			if g, ok := x.X.(*ssa.Global); ok {
+				return g
+			}
+		}
+	}
+	return nil
+}
+
+// globalWrittenOnlyInInit: nothing outside the initialiser stores to the variable or updates the table behind it.
+func globalWrittenOnlyInInit(g *ssa.Global) bool {
+	ok := true
+	for _, m := range g.Pkg.Members {
+		f, isF := m.(*ssa.Function)
+		if !isF {
+			continue
+		}
+		for _, fn := range withClosures(f) {
+			if fn.Name() == "init" || fn.Synthetic != "" && strings.HasPrefix(fn.Name(), "init") {
+				continue
+			}
+			allInstrs(fn, func(_ *ssa.BasicBlock, _ int, in ssa.Instruction) {
+				switch x := in.(type) {
+				case *ssa.Store:
+					if x.Addr == ssa.Value(g) {
+						ok = false
+					}
+					if ia, isIA := x.Addr.(*ssa.IndexAddr); isIA && globalOf(ia.X) == g {
+						ok = false
+					}
+				case *ssa.MapUpdate:
+					if globalOf(x.Map) == g {
+						ok = false
+					}
+				}
+			})
+		}
+	}
+	return ok
+}
+
+var globalMapCache = map[*ssa.Global]map[string]constant.Value{}
+
+// globalMapTable: constant key -> constant value of a package-level map built by a literal; nil when not understood.
+func globalMapTable(v ssa.Value) map[string]constant.Value {
+	g := globalOf(v)
+	if g == nil {
+		return nil
+	}
+	if t, ok := globalMapCache[g]; ok {
+		return t
+	}
+	globalMapCache[g] = nil
+	init := g.Pkg.Func("init")
+	if init == nil || !globalWrittenOnlyInInit(g) {
+		return nil
+	}
+	var mk ssa.Value
+	allInstrs(init, func(_ *ssa.BasicBlock, _ int, in ssa.Instruction) {
+		if st, ok := in.(*ssa.Store); ok && st.Addr == ssa.Value(g) {
+			mk = st.Val
+		}
+	})
+	mm, ok := mk.(*ssa.MakeMap)
+	if !ok {
+		return nil
+	}
+	tbl := map[string]constant.Value{}
+	good := true
+	for _, r := range *mm.Referrers() {
+		switch x := r.(type) {
+		case *ssa.MapUpdate:
+			k, ok1 := x.Key.(*ssa.Const)
+			val, ok2 := unwrap(x.Value).(*ssa.Const)
+			if !ok1 || !ok2 || k.Value == nil || val.Value == nil {
+				good = false
+				continue
+			}
+			tbl[k.Value.ExactString()] = val.Value
+		case *ssa.Store, *ssa.DebugRef:
+		default:
+			good = false
+		}
+	}
+	if !good {
+		return nil
+	}
+	globalMapCache[g] = tbl
+	return tbl
+}
+
+var globalSeqCache = map[*ssa.Global][]constant.Value{}
+
+// globalSeqTable: the constant elements of a package-level array or slice built by a literal; nil when not understood.
+func globalSeqTable(v ssa.Value) []constant.Value {
+	g := globalOf(v)
+	if g == nil {
+		return nil
+	}
+	if t, ok := globalSeqCache[g]; ok {
+		return t
+	}
+	globalSeqCache[g] = nil
+	init := g.Pkg.Func("init")
+	if init == nil || !globalWrittenOnlyInInit(g) {
+		return nil
+	}
+	var out []constant.Value
+	switch tt := deref(g.Type()).Underlying().(type) {
+	case *types.Array:
+		out = make([]constant.Value, tt.Len())
+		zero := zeroOf(tt.Elem())
+		for i := range out {
+			out[i] = zero
+		}
+		good := true
+		allInstrs(init, func(_ *ssa.BasicBlock, _ int, in ssa.Instruction) {
+			st, ok := in.(*ssa.Store)
+			if !ok {
+				return
+			}
+			ia, ok := st.Addr.(*ssa.IndexAddr)
+			if !ok || ia.X != ssa.Value(g) {
+				if st.Addr == ssa.Value(g) {
+					good = false // whole-array store (computed table)
+				}
+				return
+			}
+			i, ok1 := constInt64(ia.Index)
+			k, ok2 := unwrap(st.Val).(*ssa.Const)
+			if !ok1 || !ok2 || k.Value == nil || i < 0 || i >= int64(len(out)) {
+				good = false
+				return
+			}
+			out[i] = k.Value
+		})
+		if !good {
+			return nil
+		}
+	case *types.Slice:
+		var lit ssa.Value
+		allInstrs(init, func(_ *ssa.BasicBlock, _ int, in ssa.Instruction) {
+			if st, ok := in.(*ssa.Store); ok && st.Addr == ssa.Value(g) {
+				lit = st.Val
+			}
+		})
+		el, ok := sliceLitElems(lit)
+		if !ok {
+			return nil
+		}
+		for _, e := range el {
+			k, ok := unwrap(e).(*ssa.Const)
+			if !ok || k.Value == nil {
+				return nil
+			}
+			out = append(out, k.Value)
+		}
+	default:
+		return nil
+	}
+	globalSeqCache[g] = out
+	return out
+}
+
+// foldStdCall evaluates the pure standard-library predicates the library uses on constants.
+func foldStdCall(call *ssa.Call, get func(ssa.Value) (constant.Value, bool)) (constant.Value, bool) {
+	cal := call.Call.StaticCallee()
+	if cal == nil || cal.Pkg == nil {
+		return nil, false
+	}
+	path := cal.Pkg.Pkg.Path()
+	name := cal.Name()
+	if o := cal.Origin(); o != nil {
+		name = o.Name()
+	}
+	arg := func(i int) (constant.Value, bool) {
+		if i >= len(call.Call.Args) {
+			return nil, false
+		}
+		return get(call.Call.Args[i])
+	}
+	switch {
+	case path == "strings" && (name == "IndexByte" || name == "IndexRune"):
+		s, ok1 := arg(0)
+		b, ok2 := arg(1)
+		if !ok1 || !ok2 || s.Kind() != constant.String {
+			return nil, false
+		}
+		bv, ok := constant.Int64Val(b)
+		if !ok {
+			return nil, false
+		}
+		if name == "IndexByte" {
+			return constant.MakeInt64(int64(strings.IndexByte(constant.StringVal(s), byte(bv)))), true
+		}
+		return constant.MakeInt64(int64(strings.IndexRune(constant.StringVal(s), rune(bv)))), true
+	case path == "strings" && name == "ContainsRune":
+		s, ok1 := arg(0)
+		b, ok2 := arg(1)
+		if !ok1 || !ok2 || s.Kind() != constant.String {
+			return nil, false
+		}
+		bv, ok := constant.Int64Val(b)
+		if !ok {
+			return nil, false
+		}
+		return constant.MakeBool(strings.ContainsRune(constant.StringVal(s), rune(bv))), true
+	case path == "slices" && (name == "Contains" || name == "Index"):
+		el := globalSeqTable(call.Call.Args[0])
+		k, ok := arg(1)
+		if el == nil || !ok {
+			return nil, false
+		}
+		idx := -1
+		for i, e := range el {
+			if constant.Compare(e, token.EQL, k) {
+				idx = i
+				break
+			}
+		}
+		if name == "Contains" {
+			return constant.MakeBool(idx >= 0), true
+		}
+		return constant.MakeInt64(int64(idx)), true
+	}
+	return nil, false
 }
